@@ -20,7 +20,7 @@ var profiles = map[string]Profile{
 	// max-applications
 	"maxapps": {Name: "maxapps", Depth: 3, Limits: 0.0, MaxApps: 0.8, Guarantees: 0.1, Gang: 0.3, TightMax: 0.3, Fair: 0.2, PriorityProps: 0.1, Templates: 0.5, Rules: true},
 	// placement
-	"place": {Name: "place", Depth: 3, Limits: 0.1, MaxApps: 0.2, Guarantees: 0.1, Gang: 0.1, TightMax: 0.3, Fair: 0.2, PriorityProps: 0.1, Templates: 0.6, Rules: true},
+	"place": {Name: "place", Depth: 3, Limits: 0.1, MaxApps: 0.2, Guarantees: 0.1, Gang: 0.1, TightMax: 0.3, Fair: 0.2, PriorityProps: 0.1, Templates: 0.6, Rules: true, ACLs: 0.6},
 	// sorting
 	"sort": {Name: "sort", Depth: 2, Limits: 0.0, MaxApps: 0.0, Guarantees: 0.6, Gang: 0.05, TightMax: 0.6, Fair: 0.7, PriorityProps: 0.7, Templates: 0.1},
 }
